@@ -27,7 +27,7 @@
    spec: written from the property text alone: the stack must be alive and all three probes
          answered; anything else violates the property, with the barrage as the replay. *)
 From Coq Require Import ZArith Bool List String.
-From Coq Require Uint63.
+From Coq Require Export Uint63.
 From NP Require Import Model.Inbound.
 Import ListNotations.
 Open Scope Z_scope.
